@@ -148,6 +148,7 @@ type c11Run struct {
 	facts    []m.Pred
 	elapsed  time.Duration
 	viaToken bool
+	viaQuery bool
 }
 
 func limitName(err error) string {
@@ -226,6 +227,44 @@ func runC11(c C11Case) (c11Run, error) {
 		a.Reset()
 	}
 	bridge.AddAuthz(a, az)
+	if c.Place != "authority" && c.Place != "block" && c.RootSeed%2 == 1 {
+		// Query is an entry point too: it runs the authorizer's own facts and rules under the same limits
+		r.viaQuery = true
+		t0 := time.Now()
+		_, r.err = a.Query(bridge.ToRule(m.Rule{Head: m.P("probe_out", m.Var("x")), Body: []m.Pred{m.P("probe_none", m.Var("x"))}}))
+		r.elapsed = time.Since(t0)
+		if r.err != nil {
+			return r, nil
+		}
+		if c.Class == "heavy" {
+			return r, nil
+		}
+		// the evaluation succeeded: read the whole model back, predicate by predicate
+		seen := map[string]bool{}
+		for _, f := range ref.LFP(c.Facts, c.Rules).Facts.List() {
+			k := fmt.Sprintf("%s/%d", f.Name, len(f.Terms))
+			if seen[k] {
+				continue
+			}
+			seen[k] = true
+			vars := make([]m.Term, len(f.Terms))
+			for i := range vars {
+				vars[i] = m.Var(fmt.Sprintf("v%d", i))
+			}
+			fs, err := a.Query(bridge.ToRule(m.Rule{Head: m.P(f.Name, vars...), Body: []m.Pred{m.P(f.Name, vars...)}}))
+			if err != nil {
+				r.err = err
+				return r, nil
+			}
+			lifted, err := bridge.LiftFactSet(fs)
+			if err != nil {
+				return r, err
+			}
+			r.facts = append(r.facts, lifted...)
+		}
+		r.viaToken = false // the facts are known: compare them with the fixpoint
+		return r, nil
+	}
 	t0 := time.Now()
 	r.err = a.Authorize()
 	r.elapsed = time.Since(t0)
@@ -275,6 +314,9 @@ func checkC11(c C11Case, rec *obs.Recorder) *obs.Violation {
 	}
 	rec.Label("entry:" + c.Entry)
 	rec.Label("result:" + name)
+	if got.viaQuery {
+		rec.Label("call:Query")
+	}
 	nontrivial := factsExceeded || itersExceeded || heavy || illFormed || c.Entry != "world"
 	if nontrivial && rec.NonTrivial(c.text()) {
 		rec.Sample(map[string]any{"case": c.text(), "reference_size": size, "reference_rounds": want.Rounds, "result": name, "elapsed_ms": got.elapsed.Milliseconds()})
@@ -539,7 +581,7 @@ func drawC11(t *rapid.T) C11Case {
 func TestC11(t *testing.T) {
 	rec := obs.New("C11")
 	defer rec.Flush(true)
-	rec.SetExtra("rule", "rapid program classes with reference size and round numbers: small typed programs; blow-up (cross products, transitive closure over a chain up to 14); heavy joins (a 5-predicate body over a calibrated number of facts with no match, about 1.5 s in full) under 1 ms / 20 ms; ill-formed rules (unbound head variable with 1-4 matching bindings; expression error; a rule that mixes both, with expressions that pass on some bindings and raise division-by-zero / overflow errors on others, facts in drawn order); derivation ladders l0->l1->...->lk (k 3-7) with their rules in a drawn order; limit configurations drawn around the reference numbers (generous / fact limit below the fixpoint / iteration limit below the need / arbitrary); delivered through datalog.NewWorld, NewVerifier, Authorizer(root, opts...), AuthorizerFor(src, opts...), with the program in the authority block, the authorizer or a later block; in a third of the token-level cases the authorizer is used and Reset before the content is added (limits must survive Reset). Oracle: Run==nil implies facts == reference fixpoint and no limit exceeded; fixpoint larger than maxFacts / needing >= maxIterations+2 rounds implies the matching sentinel (errors.Is); heavy program under a tiny duration implies the timeout sentinel; a program clearly within all limits gets no limit error; Authorize fails with the sentinel through every entry point; after return, no goroutine with a datalog frame stays parked in a channel send while no datalog goroutine can run (3 equal samples). Non-trivial = a limit is exceeded, or an early-exit path is taken, or options travel through a token-level entry point; distinct by case.")
+	rec.SetExtra("rule", "rapid program classes with reference size and round numbers: small typed programs; blow-up (cross products, transitive closure over a chain up to 14); heavy joins (a 5-predicate body over a calibrated number of facts with no match, about 1.5 s in full) under 1 ms / 20 ms; ill-formed rules (unbound head variable with 1-4 matching bindings; expression error; a rule that mixes both, with expressions that pass on some bindings and raise division-by-zero / overflow errors on others, facts in drawn order); derivation ladders l0->l1->...->lk (k 3-7) with their rules in a drawn order; limit configurations drawn around the reference numbers (generous / fact limit below the fixpoint / iteration limit below the need / arbitrary); delivered through datalog.NewWorld, NewVerifier, Authorizer(root, opts...), AuthorizerFor(src, opts...), with the program in the authority block, the authorizer or a later block, evaluated by Authorize or (program in the authorizer, half of the cases) by Query, after which the whole model is read back with one query per predicate and compared with the reference fixpoint; in a third of the token-level cases the authorizer is used and Reset before the content is added (limits must survive Reset). Oracle: Run==nil implies facts == reference fixpoint and no limit exceeded; fixpoint larger than maxFacts / needing >= maxIterations+2 rounds implies the matching sentinel (errors.Is); heavy program under a tiny duration implies the timeout sentinel; a program clearly within all limits gets no limit error; Authorize fails with the sentinel through every entry point; after return, no goroutine with a datalog frame stays parked in a channel send while no datalog goroutine can run (3 equal samples). Non-trivial = a limit is exceeded, or an early-exit path is taken, or options travel through a token-level entry point; distinct by case.")
 	rec.SetExtra("assumptions", []string{"the exact boundary (==) of the limits is not asserted", "liveness ('never blocked forever') is decided through the safety proxy of a quiescent parked sender", "a single late return is inconclusive; three in a row are a violation"})
 	harness.RunWith(t, harness.Spec[C11Case]{ID: "C11", Draw: drawC11, Check: checkC11}, rec)
 }
